@@ -49,9 +49,12 @@ LEVEL_TEXT = ('Runtime monitoring: every generated candidate string is pushed th
               'judged against independent hand-written recognisers of the documented formats. Held on the executions '
               'observed.')
 LEVEL_NOTE = ('Trusted: the hand-written recognisers (vlib/recognisers.py), stdlib json used by the harness to build '
-              'input text, the harness generator. Not covered: Capacities/CapacityHints/Location/Flags fields, direct '
-              'attribute assignment on a Labels object, python -O, Neo4j-backed topologies, substrate/advertised '
-              'topologies, names derived by the component catalogue for NIC components.')
+              'input text, the harness generator. "Accepted" = no exception and the value is stored; an out-of-domain '
+              'value that is silently dropped or normalised into the domain is not counted against the property. '
+              'Not covered: Capacities/CapacityHints/Location/Flags fields, direct attribute assignment on a Labels '
+              'object and the private _set_fields, python -O (assert-based checks), Neo4j-backed topologies, '
+              'substrate/advertised topologies, add_facility/add_switch/add_storage/peer, names derived by the component '
+              'catalogue for NIC components (only reported as information), replay of the repository tests under monitors.')
 
 LABEL_ENTRIES = ['ctor', 'update', 'from_json', 'from_json_instance', 'from_json_forgiving',
                  'delegation_set_details', 'delegations_from_json',
